@@ -410,4 +410,20 @@ def rule5(ctx, prog, flows):
                             hi_ok = True
                 ok = ok or (lo_ok and hi_ok)
                 why = "path[%s..%s]" % (fmt_desc(lo), hs)
+    # every stored path is examined on its own: the answer must not be decided from ONE particular path (the first,
+    # the last, paths[0]) -- tied shortest paths of a weighted graph can have different hop counts
+    picks = []
+    for cpb in [cp] + prog.closures_of(cp.path):
+        cf2 = flows.of(cpb)
+        for t2 in cpb.calls():
+            if not t2.callee or not t2.args or t2.args[0].place is None:
+                continue
+            last = t2.callee.short.split("::")[-1]
+            rty = t2.args[0].place.ty
+            on_paths = "Vec<std::vec::Vec<" in rty or "[std::vec::Vec<" in rty
+            if last in ("first", "last", "get", "nth", "first_mut", "last_mut", "split_first", "split_last") and on_paths:
+                picks.append("%s at %s" % (last, loc_str(t2.span)))
+            if last == "index" and on_paths and len(t2.args) > 1 and t2.args[1].is_const():
+                picks.append("paths[const] at %s" % loc_str(t2.span))
+    ctx.require(not picks, "R-C08-5", "every-path", "contains_path_through_node looks at every path, none is singled out", "contains_path_through_node singles out one stored path (%s): with tied paths of different hop counts the pair is judged by that path alone" % "; ".join(picks), loc_str(cp.span))
     ctx.require(ok, "R-C08-5", "interior", "the node must lie strictly inside a path: path[1 .. len-1]", "contains_path_through_node looks at %s: endpoints would count" % why, loc_str(cp.span))
